@@ -1132,6 +1132,57 @@ def argv_leg(ctx, corr, H):
             corr.sample({'case': argv_describe(c), 'real': o['line'][:700]})
             break
 
+def stdout_write_errors(ctx, corr, H, only=None):
+    """the requested output is STANDARD OUTPUT (-E without -o, `-o -`, -M / -MM) and cannot be written (ENOSPC on /dev/full,
+    a closed descriptor): "unwritable output" of the property - the driver must exit non-zero and leave nothing behind.
+    Real runs only (the model's file system has no descriptor table); cwd = a fresh directory per case."""
+    if not os.path.exists('/dev/full'):
+        corr.count('stdout-write-error-skipped')
+        return
+    shapes = [['-E', 'a.c'], ['-E', '-o', '-', 'a.c'], ['-S', '-o', '-', 'a.c'], ['-M', 'a.c'], ['-MM', 'a.c'], ['-E', 'a.c', 'b.c'],
+              ['-E', '-o', '-', 'a.c', 'b.c'], ['-M', '-MP', 'a.c'], ['-E', '-MD', 'a.c']]
+    for si, argv in enumerate(shapes):
+        for how in ('devfull', 'closed'):
+            if only and (list(argv), how) != (list(only[0]), only[1]):
+                continue
+            with H.lock:
+                num = next(H.counter)
+            wd = os.path.join(H.base, f'so{num}')
+            os.makedirs(wd)
+            for n in ('a.c', 'b.c'):
+                open(os.path.join(wd, n), 'w').write('#include "h.h"\nint f_%s(void) { return VALUE; }\n' % n[0])
+            open(os.path.join(wd, 'h.h'), 'w').write('#define VALUE 42\n')
+            tmpd = os.path.join(wd, 'tmp')
+            os.makedirs(tmpd)
+            before = set(os.listdir('/tmp'))
+            if how == 'devfull':
+                out = open('/dev/full', 'w')
+                p = subprocess.Popen([ctx.cc] + argv, cwd=wd, stdout=out, stderr=subprocess.PIPE)
+            else:
+                p = subprocess.Popen(['sh', '-c', 'exec "$0" "$@" >&-', ctx.cc] + argv, cwd=wd, stderr=subprocess.PIPE)
+            try:
+                _, se = p.communicate(timeout=60)
+                rc = p.returncode
+            except subprocess.TimeoutExpired:
+                p.kill(); p.communicate(); rc, se = -9, b'timeout'
+            if how == 'devfull':
+                out.close() if not out.closed else None
+            corr.evaluations += 1
+            corr.count('stdout-write-error')
+            corr.nontrivial.add(f'stdout-write-error {how} {" ".join(argv)}')
+            leftover = sorted(x for x in set(os.listdir('/tmp')) - before if x.startswith('chibicc-'))
+            created = sorted(x for x in os.listdir(wd) if x not in ('a.c', 'b.c', 'h.h', 'tmp') and not (x.endswith('.d') and '-MD' in argv))
+            bad = []
+            if rc == 0:
+                bad.append('exit status 0 although the output (standard output) could not be written')
+            if created:
+                bad.append(f'files created: {created}')
+            if bad:
+                corr.violations.append({'what': '; '.join(bad), 'input': f'chibicc {" ".join(argv)} > ' + ('/dev/full' if how == 'devfull' else '&-'),
+                                        'kind': 'stdout-write-error', 'argv': argv, 'how': how, 'expected': 'non-zero exit status, nothing created',
+                                        'got': {'status': rc, 'stderr': se.decode(errors='replace')[-300:], 'created': created, 'tmp': leftover}})
+                return
+
 def correspond(ctx, corr):
     H = get_harness(ctx)
     corr.rule = ('cases = command shapes {-E,-S,-c,link} x {-o, none} x 1..3 inputs (.c/.s/.o, plus -l, unknown extension, sub/dir '
@@ -1149,6 +1200,7 @@ def correspond(ctx, corr):
                  'is given the children\'s observed outcomes, and status, trace, files, dependency text and every child command line are '
                  'compared; independently the property\'s postconditions (exactly the requested outputs incl. dependency files; a failing '
                  'front end leaves neither output nor dependency file).  '
+                 'Standard output as the requested output (-E, -o -, -M, -MM) made unwritable (/dev/full, closed descriptor): non-zero exit, nothing created.  '
                  'Then N=4..8 drivers run simultaneously in one directory and each is compared with its solo run.')
     cases = gen_cases(ctx)
     obs = run_cases(ctx, corr, H, cases)
@@ -1159,6 +1211,8 @@ def correspond(ctx, corr):
     corr.extra['exhaustive_subspace'] = ('all shapes with 1..3 inputs over {.c,.s,.o} x every single fault point x {exit 1, exit 3, '
                                          'SIGSEGV, SIGKILL} x {output untouched, junk, removed}' if ctx.thorough
                                          else 'all shapes with 1..3 inputs over {.c,.s,.o}; per shape a seeded sample of 7 fault points')
+    if not corr.violations and not corr.disagreements:
+        stdout_write_errors(ctx, corr, H)
     if not corr.violations and not corr.disagreements:
         args_leg(ctx, corr)
     if not corr.violations and not corr.disagreements:
@@ -1206,6 +1260,11 @@ def search(ctx, broken, corr):
 
 def replay(ctx, corr, path):
     payload = json.load(open(path))
+    if payload.get('kind') == 'stdout-write-error':
+        H = get_harness(ctx)
+        stdout_write_errors(ctx, corr, H, only=(payload['argv'], payload['how']))
+        print('replay:', payload.get('input'), '->', 'VIOLATED' if corr.violations else 'holds')
+        return
     c = payload.get('case')
     if not c and payload.get('argv') is not None:
         words = payload['argv']
